@@ -382,8 +382,8 @@ fn regression_items(_ctx: &Ctx) -> Vec<TotalCase> {
 }
 
 pub fn property() -> Property {
-    let g = G::default();
-    let g2 = G::default().depth(3);
+    let g = G::default().with_digit_sup();
+    let g2 = G::default().depth(3).with_digit_sup();
     Property {
         id: "C01",
         level: "exploration",
